@@ -25,48 +25,108 @@ DOC_ROWS = {"false": "Bool", "0": "Integer", "null": "Null", "0.0": "Float", "'\
             '""': "Str", "[]": "Arr", "map {}": "Map"}
 
 
-def falsey_descriptor(pat, body, variant):
-    """semantic descriptor of one (pattern alternative, body)"""
-    b = H.strip(body)
-    if pat.get("k") in ("ppath",):
-        return "always" if (b.get("k") == "lit" and b["v"] is True) else "?"
-    if pat.get("k") == "ts" and len(pat["pats"]) == 1:
-        inner = pat["pats"][0]
-        if inner.get("k") == "plit":
-            v = inner["lit"]["v"]
-            if b.get("k") == "lit" and b["v"] is True:
-                if v is False:
-                    return "payload == false"
-                if v == 0:
-                    return "payload == 0"
-                return "payload == %r" % (v,)
-            return "?"
-        if inner.get("k") == "bind":
-            name = inner["name"]
-            if b.get("k") == "bin" and b["op"] == "==":
-                l, r = H.strip(b["l"]), H.strip(b["r"])
-                if H.is_local(l, name) and r.get("k") == "lit":
-                    if r["lk"] == "float":
-                        return "payload == 0.0" if float(r["v"]) == 0.0 else "payload == %s" % r["v"]
-                    if r["lk"] == "char":
-                        return "payload == '\\0'" if r["v"] == "\0" else "payload == %r" % r["v"]
-                    if r["lk"] == "int":
-                        return "payload == %d" % r["v"]
-                return "?"
-            if b.get("k") == "mcall" and b["m"] == "is_empty":
-                cal = b.get("callee") or ""
-                recv = b["recv"]
-                chain = H.render(recv)
-                if cal == "std::string::String::is_empty" and H.is_local(H.strip(recv), name):
-                    return "String::is_empty"
-                if cal.startswith("std::vec::Vec") and chain == "%s.elements.borrow()" % name:
-                    return "Vec::is_empty(elements)"
-                if cal.startswith("std::collections::HashMap") and chain == "%s.pairs.borrow()" % name:
-                    return "HashMap::is_empty(pairs)"
-                return "? %s on %s" % (cal, chain)
-            if b.get("k") == "lit" and b["v"] is False:
-                return "never"
-    return "?"
+def _lit_desc(v, lk=None):
+    if v is False:
+        return "payload == false"
+    if v is True:
+        return "payload == true"
+    if lk == "float" or isinstance(v, float):
+        return "payload == 0.0" if float(v) == 0.0 else "payload == %s" % v
+    if lk == "char" or (isinstance(v, str) and len(v) == 1):
+        return "payload == '\\0'" if v == "\0" else "payload == %r" % v
+    if isinstance(v, int):
+        return "payload == %d" % v
+    return "payload == %r" % (v,)
+
+
+def predicate_table(F, fn_path, depth=0):
+    """Per variant of Object, the set of payloads for which a `match self {..}` predicate method is true, in normal form:
+    'always' | 'never' | 'payload == <lit>' | 'String::is_empty' | 'Vec::is_empty(elements)' | 'HashMap::is_empty(pairs)'
+    | '?..'.  Arms are read in order (a literal payload pattern leaves the other payloads to later arms); a body may be a
+    constant, a comparison of the payload with a literal, `!payload` for a bool, an is_empty() of the payload, or a call
+    of another such predicate of Object on `self` (looked through)."""
+    f = F.fn(fn_path)
+    vs = T.variants(F)
+    if f is None or not vs or depth > 2:
+        return None
+    m = T.top_match(f)
+    if m is None:
+        return None
+    table = {}
+    for v in vs:
+        lits_true, lits_false, final = [], [], None
+        for arm in m["arms"]:
+            alts = arm["pat"]["pats"] if arm["pat"].get("k") == "or" else [arm["pat"]]
+            for p in alts:
+                pvs = [H.last(x) for x in H.pat_variants(p)]
+                if v not in pvs and "*" not in pvs:
+                    continue
+                body = H.strip(arm["body"])
+                const = body["v"] if (body.get("k") == "lit" and body.get("lk") == "bool") else None
+                inner = p["pats"][0] if (p.get("k") == "ts" and len(p.get("pats", [])) == 1) else None
+                if inner is not None and inner.get("k") == "plit":
+                    # a literal payload: decides that payload only
+                    if const is True:
+                        lits_true.append(_lit_desc(inner["lit"]["v"], inner["lit"].get("lk")))
+                    elif const is False:
+                        lits_false.append(_lit_desc(inner["lit"]["v"], inner["lit"].get("lk")))
+                    else:
+                        final = "? literal arm with a computed body"
+                    continue
+                # every remaining payload of this variant
+                name = inner.get("name") if inner is not None and inner.get("k") == "bind" else None
+                if const is not None:
+                    final = "always" if const else "never"
+                elif body.get("k") == "bin" and body["op"] in ("==", "!=") and name:
+                    l, r = H.strip(body["l"]), H.strip(body["r"])
+                    if H.is_local(r, name):
+                        l, r = r, l
+                    if H.is_local(l, name) and r.get("k") == "lit":
+                        d = _lit_desc(r["v"], r.get("lk"))
+                        if body["op"] == "!=":
+                            d = {"payload == false": "payload == true", "payload == true": "payload == false"}.get(d, "? != " + d)
+                        final = d
+                    else:
+                        final = "? " + H.render(body)[:50]
+                elif body.get("k") == "un" and body.get("op") == "!" and name and H.is_local(H.strip(body["e"]), name):
+                    final = "payload == false"
+                elif H.is_local(body, name) if name else False:
+                    final = "payload == true"
+                elif body.get("k") == "mcall" and body["m"] == "is_empty" and name:
+                    cal = body.get("callee") or ""
+                    chain = H.render(body["recv"])
+                    if cal == "std::string::String::is_empty" and H.is_local(H.strip(body["recv"]), name):
+                        final = "String::is_empty"
+                    elif cal.startswith("std::vec::Vec") and chain == "%s.elements.borrow()" % name:
+                        final = "Vec::is_empty(elements)"
+                    elif cal.startswith("std::collections::HashMap") and chain == "%s.pairs.borrow()" % name:
+                        final = "HashMap::is_empty(pairs)"
+                    else:
+                        final = "? %s on %s" % (cal, chain)
+                elif body.get("k") in ("mcall", "call") and (body.get("callee") or "").startswith("object::Object::") and \
+                        H.render(H.strip(body.get("recv") or (body.get("args") or [{}])[0])) == "self":
+                    sub = predicate_table(F, body["callee"], depth + 1)
+                    final = (sub or {}).get(v, "? " + H.last(body["callee"]))
+                else:
+                    final = "? " + H.render(body)[:50]
+                break
+            if final is not None:
+                break
+        if final is None:
+            final = "never" if not m["arms"] else "? no arm"
+        # combine the literal arms with what the remaining payloads get
+        if final == "never":
+            d = "never" if not lits_true else (lits_true[0] if len(set(lits_true)) == 1 else "? " + " | ".join(sorted(set(lits_true))))
+        elif final == "always":
+            d = "always" if not lits_false else "? all but " + " | ".join(sorted(set(lits_false)))
+        elif final in lits_true or (not lits_true and not lits_false):
+            d = final
+        elif lits_true and set(lits_true) == {final}:
+            d = final
+        else:
+            d = "? %s after literal arms %s/%s" % (final, lits_true, lits_false)
+        table[v] = d
+    return table
 
 
 def run(F, R, tier):
@@ -75,31 +135,13 @@ def run(F, R, tier):
     f = F.fn("object::Object::is_falsey")
     if not (R.anchor("enum object::Object", vs) and R.anchor("object::Object::is_falsey", f)):
         return
-    m = T.top_match(f)
-    if not R.anchor("is_falsey: match self", m):
+    table = predicate_table(F, "object::Object::is_falsey")
+    if not R.anchor("is_falsey: match self", table):
         return
-    table = {}
-    for a in m["arms"]:
-        alts = a["pat"]["pats"] if a["pat"].get("k") == "or" else [a["pat"]]
-        for p in alts:
-            for v in H.pat_variants(p):
-                v = H.last(v)
-                if v == "*":
-                    b = H.strip(a["body"])
-                    table.setdefault("*", "never" if (b.get("k") == "lit" and b["v"] is False) else "?")
-                else:
-                    table.setdefault(v, []).append(falsey_descriptor(p, a["body"], v))
-    default = table.get("*", "?")
     for v in vs:
-        got = table.get(v)
-        if got is None:
-            got = [default]
+        got = table.get(v, "?")
         want = WANT.get(v, "never")
-        ok = got == [want]
-        # a literal payload pattern (Bool(false), Integer(0)) leaves other payloads to the default arm
-        if got in (["payload == false"], ["payload == 0"]) and want == got[0]:
-            ok = ok and default == "never"
-        R.ob("falsey-table", v, ok, "is_falsey decides %s: %s; property: %s" % (v, got, want), F.loc(f))
+        R.ob("falsey-table", v, got == want, "is_falsey decides %s: %s; property: %s" % (v, got, want), F.loc(f))
     R.count("Object variants × falsey decision", len(vs))
     R.floor("Object variants", len(vs), 23)
     # documented table
@@ -112,7 +154,7 @@ def run(F, R, tier):
             elif on and line.startswith("|") and "falsey" in line.split("|")[2]:
                 rows.append(line.split("|")[1].strip())
         docset = {DOC_ROWS.get(r, "?" + r) for r in rows}
-        codeset = {v for v in vs if (table.get(v) or [default]) != ["never"]}
+        codeset = {v for v in vs if table.get(v) != "never"}
         R.ob("falsey-docs", "documented falsey kinds = code's falsey kinds", docset == codeset,
              "docs: %s; code: %s" % (sorted(docset), sorted(codeset)), "docs/language/operators.md")
 
@@ -120,38 +162,58 @@ def run(F, R, tier):
     arms = vm_arms(F, R)
     if arms:
         want_src = {"Bang": "pop", "JumpIfFalse": "pop", "JumpIfFalseNoPop": "top"}
+        VMP = "vm::interpreter::VM::"
+        OPAQUE = tuple(VMP + x for x in ("pop", "push", "top", "peek", "current_frame", "last_popped")) + ("object::Object::is_falsey",)
         for op, src in want_src.items():
             a = arms.get(op)
             if not R.anchor("VM::run arm " + op, a):
                 continue
-            calls = [c for c in H.walk(a["body"]) if c.get("k") == "mcall" and c["m"] == "is_falsey"]
-            ok = len(calls) == 1
-            det = "%d is_falsey calls" % len(calls)
-            if ok:
-                c = calls[0]
-                recv = H.strip(c["recv"])
-                # receiver must be the local bound from self.pop(line)? / self.top(0, line)?
-                origin = None
-                if H.is_local(recv):
-                    for s in H.walk(a["body"]):
-                        if s.get("k") == "let" and s["pat"].get("k") == "bind" and s["pat"]["id"] == H.local_id(recv):
-                            origin = H.render(s.get("init"))
-                want = {"pop": "self.pop(line)?", "top": "self.top(0, line)?"}[src]
-                ok = origin == want
-                det = "is_falsey on %s = %s (want %s)" % (H.render(recv), origin, want)
-                # polarity
-                if op == "Bang":
-                    par = [x for x in H.walk(a["body"]) if x.get("k") == "call" and H.last(x.get("ctor", "")) == "Bool"]
-                    pol = bool(par) and H.render(H.strip(par[0]["args"][0])) == H.render(c)
-                    ok = ok and pol
-                    det += "; result Bool(is_falsey) %s" % pol
-                else:
-                    ifs = [x for x in H.walk(a["body"]) if x.get("k") == "if"]
-                    pol = len(ifs) == 1 and H.render(H.strip(ifs[0]["c"])) == H.render(c) and \
-                        "ip = pos" in H.render(ifs[0]["t"]) and "continue" in H.render(ifs[0]["t"]) and "e" not in ifs[0]
-                    ok = ok and pol
-                    det += "; jump taken iff is_falsey %s" % pol
-            R.ob("truthiness-routing", op, ok, det, "src/vm/interpreter.rs:%s" % a["line"])
+            # the arm with its small helpers inlined; paths enumerated for both answers of is_falsey
+            body = H.inline_helpers(F, a["body"], skip=OPAQUE)
+            lets = {x["pat"]["id"]: x["init"] for x in H.walk(body) if x.get("k") == "let" and x.get("pat", {}).get("k") == "bind" and x.get("init") is not None}
+
+            def origin(e, d=0):
+                """the stack access a value comes from: 'pop' | 'top' | None"""
+                e = H.strip(H.untry(H.strip(e)))
+                if H.is_local(e) and H.local_id(e) in lets and d < 6:
+                    return origin(lets[H.local_id(e)], d + 1)
+                if e.get("k") in ("mcall", "call") and (e.get("callee") or "") in (VMP + "pop", VMP + "top"):
+                    return H.last(e["callee"])
+                return None
+            ok, det = True, []
+            for answer in (True, False):
+                ps = H.paths(body, lambda c: answer if (c.get("k") == "mcall" and c.get("callee") == "object::Object::is_falsey") else None)
+                ps = [(evs, ex) for evs, ex in ps if not (ex == "ret" and any(e_[0] == "call" and H.last(str(e_[1])) in ("pop", "top") for e_ in evs) is False)]
+                ps = [(evs, ex) for evs, ex in ps if any(e_[0] == "call" and e_[1] == "object::Object::is_falsey" for e_ in evs)]   # paths past the `?` exits
+                if not ps:
+                    ok = False
+                    det.append("no path reaches is_falsey")
+                    continue
+                for evs, ex in ps:
+                    tests = [e_[2] for e_ in evs if e_[0] == "call" and e_[1] == "object::Object::is_falsey"]
+                    o = origin(tests[0]["recv"]) if len(tests) == 1 else None
+                    if len(tests) != 1 or o != src:
+                        ok = False
+                        det.append("is_falsey asked %d times on a value from %s (want one test of the value from %s)" % (len(tests), o, src))
+                    jumps = [e_ for e_ in evs if e_[0] == "assign" and e_[1].endswith(".ip")]
+                    if op == "Bang":
+                        pushes = [e_[2] for e_ in evs if e_[0] == "call" and e_[1] == VMP + "push"]
+                        good = len(pushes) == 1 and any(x.get("k") == "call" and H.last(x.get("ctor", "")) == "Bool" and
+                                                        any(y is tests[0] or (H.is_local(y) and H.local_id(y) in lets and H.strip(lets[H.local_id(y)]) is tests[0]) for y in H.walk(x["args"][0]))
+                                                        for x in H.walk(pushes[0])) if tests else False
+                        if not good:
+                            ok = False
+                            det.append("the pushed value is not Bool(is_falsey(operand))")
+                    elif answer:
+                        if not (len(jumps) == 1 and ex == "continue"):
+                            ok = False
+                            det.append("falsey: %d absolute ip assignments, exit %s (want one, then continue)" % (len(jumps), ex))
+                    else:
+                        if jumps or ex != "fall":
+                            ok = False
+                            det.append("truthy: %d absolute ip assignments, exit %s (want none, fall through)" % (len(jumps), ex))
+            R.ob("truthiness-routing", op, ok, "; ".join(sorted(set(det)))[:300] or "one is_falsey test of the %s value decides; polarity as documented" % ("popped" if src == "pop" else "top"),
+                 "src/vm/interpreter.rs:%s" % a["line"])
         # the value a short-circuit operator yields is the operand itself: the conditional jumps and Jump leave the stack
         # contents alone (JumpIfFalse pops exactly its condition; JumpIfFalseNoPop and Jump change nothing)
         for op, allowed in (("JumpIfFalseNoPop", {"top"}), ("JumpIfFalse", {"pop"}), ("Jump", set())):
@@ -194,33 +256,42 @@ def run(F, R, tier):
 
     # ---- (c) emission templates ---------------------------------------------------------
     C = "compiler::Compiler::"
-    want_and = ["compile_expression(left)", "p0=emit(JumpIfFalseNoPop,[65535])", "emit(Pop,[0])",
-                "compile_expression(right)", "patch(p0)"]
-    want_or = ["compile_expression(left)", "p0=emit(JumpIfFalseNoPop,[65535])", "p1=emit(Jump,[65535])", "patch(p0)",
-               "emit(Pop,[0])", "compile_expression(right)", "patch(p1)"]
-    for nm, want in (("compile_logical_and", want_and), ("compile_logical_or", want_or)):
-        g = F.fn(C + nm)
-        if not R.anchor(C + nm, g):
-            continue
-        seq, straight = E.linear_events(H.body_of(g))
-        R.ob("short-circuit-template", nm, straight and seq == want, "emission sequence %s" % seq, F.loc(g))
-    # dispatch: "&&" → compile_logical_and, "||" → compile_logical_or
-    ce = F.fn(C + "compile_expression")
-    if R.anchor(C + "compile_expression", ce):
-        disp = {}
-        for mm in H.walk(H.body_of(ce)):
-            if mm.get("k") == "match" and not H.is_try(mm):
-                for a in mm["arms"]:
-                    for alt in (a["pat"]["pats"] if a["pat"].get("k") == "or" else [a["pat"]]):
-                        if alt.get("k") == "plit" and alt["lit"]["lk"] == "str":
-                            cs = [H.last(c.get("callee") or "") for c in H.walk(a["body"]) if c.get("k") in ("call", "mcall")
-                                  and H.last(c.get("callee") or "").startswith("compile_logical")]
-                            if cs:
-                                disp[alt["lit"]["v"]] = (cs, [H.render(H.strip(x)) for c in H.walk(a["body"])
-                                                              if c.get("k") in ("call", "mcall") and H.last(c.get("callee") or "").startswith("compile_logical")
-                                                              for x in c["args"][:2]])
-        R.ob("short-circuit-dispatch", "&&", disp.get("&&") == (["compile_logical_and"], ["binary.left", "binary.right"]), str(disp.get("&&")), F.loc(ce))
-        R.ob("short-circuit-dispatch", "||", disp.get("||") == (["compile_logical_or"], ["binary.left", "binary.right"]), str(disp.get("||")), F.loc(ce))
+    # `a && b` / `a || b`: decided on the emission verifier's paths through compile_expression's Binary arm (helpers of any
+    # shape inlined): the left operand is compiled first; `&&` then emits JumpIfFalseNoPop (placeholder), Pop, compiles the
+    # right operand and patches the jump behind it; `||` emits JumpIfFalseNoPop, Jump, patches the first behind the Jump,
+    # Pop, right operand, patches the Jump behind it.  So b is evaluated only when a is truthy (falsey), and the value left
+    # on the stack is a itself when the jump is taken (NoPop) and b otherwise.
+    from .lib import e5run
+    from . import c02 as _c02
+    res = e5run.analyse(F, R)
+    if not res["ok"]:
+        R.ob("emission-verifier", "the compiler's code is inside the fragment the verifier interprets", False, "unsupported construct: %s" % res.get("unsupported"))
+    else:
+        r = res["expr"].get(("Binary", "fn"))
+        seen = {"&&": [], "||": []}
+        if R.anchor("Expression::Binary arm", r):
+            for t, st in r["ends"]:
+                if t != "ok":
+                    continue
+                ops, _ = _c02.ops_of(st, "$:Binary.operator", r["pname"])
+                for o in (ops or ()):
+                    if o in seen:
+                        order = tuple(x[0] for x in e5run.corder(st, r["pname"]))
+                        em = [e[0] for e in st.emits]
+                        want_em = ["JumpIfFalseNoPop", "Pop"] if o == "&&" else ["JumpIfFalseNoPop", "Jump", "Pop"]
+                        # the right operand is compiled after the Pop: position of the second child among the emits
+                        evs = [e[0] for e in st.events]
+                        seen[o].append((order == ("$:Binary.left", "$:Binary.right") and em == want_em and not st.pend, order, em))
+            for o in ("&&", "||"):
+                R.ob("short-circuit-template", "compile_logical_%s" % ("and" if o == "&&" else "or"), bool(seen[o]) and all(x[0] for x in seen[o]),
+                     "operator %s: child order / emitted opcodes per path: %s" % (o, sorted({(x[1], tuple(x[2])) for x in seen[o]})), F.loc(F.fn(C + "compile_expression")))
+        # jump landing heights of these templates are E5's own obligations (shared rules): report the ones raised in the Binary arm
+        seen_v = set()
+        for v in res["viol"]:
+            rule, key, detail, line, facts = v
+            if "expression[Binary]" in key and rule in _c02.SHARED and (rule, key) not in seen_v:
+                seen_v.add((rule, key))
+                R.ob(rule, key, False, detail, "src/compiler/mod.rs:%s" % line if line else "")
     # conditionals branch on truthiness opcodes
     for nm, op in (("compile_if_expression", "JumpIfFalse"), ("compile_filter_statement", "JumpIfFalseNoPop")):
         g = F.fn(C + nm)
